@@ -94,6 +94,13 @@ func (pConn *PFCPConn) handleSessionEstablishmentRequest(msg message.Message) (m
 			ie.CauseNoResourcesAvailable)
 	}
 
+	// from here on a rejected establishment has to give back what the session
+	// acquired so far (its unit in the sessions gauge, F-TEIDs, UE IP address)
+	errSessionReply := func(err error, cause uint8) (message.Message, error) {
+		pConn.RemoveSession(session)
+		return errProcessReply(err, cause)
+	}
+
 	addPDRs := make([]pdr, 0, MaxItems)
 	addFARs := make([]far, 0, MaxItems)
 	addQERs := make([]qer, 0, MaxItems)
@@ -101,14 +108,14 @@ func (pConn *PFCPConn) handleSessionEstablishmentRequest(msg message.Message) (m
 	for _, cPDR := range sereq.CreatePDR {
 		var p pdr
 		if err = p.parsePDR(cPDR, session.localSEID, pConn.appPFDs, upf.ippool); err != nil {
-			return errProcessReply(err, ie.CauseRequestRejected)
+			return errSessionReply(err, ie.CauseRequestRejected)
 		}
 
 		if p.UPAllocateFteid {
 			var fteid uint32
 			fteid, err = pConn.upf.fteidGenerator.Allocate()
 			if err != nil {
-				return errProcessReply(err, ie.CauseNoResourcesAvailable)
+				return errSessionReply(err, ie.CauseNoResourcesAvailable)
 			}
 			p.tunnelTEID = fteid
 			p.tunnelTEIDMask = 0xFFFFFFFF
@@ -124,7 +131,7 @@ func (pConn *PFCPConn) handleSessionEstablishmentRequest(msg message.Message) (m
 	for _, cFAR := range sereq.CreateFAR {
 		var f far
 		if err = f.parseFAR(cFAR, session.localSEID, upf, create); err != nil {
-			return errProcessReply(err, ie.CauseRequestRejected)
+			return errSessionReply(err, ie.CauseRequestRejected)
 		}
 
 		f.fseidIP = fseidIP
@@ -135,7 +142,7 @@ func (pConn *PFCPConn) handleSessionEstablishmentRequest(msg message.Message) (m
 	for _, cQER := range sereq.CreateQER {
 		var q qer
 		if err = q.parseQER(cQER, session.localSEID); err != nil {
-			return errProcessReply(err, ie.CauseRequestRejected)
+			return errSessionReply(err, ie.CauseRequestRejected)
 		}
 
 		q.fseidIP = fseidIP
